@@ -183,8 +183,16 @@ ldb_set_current_file(const char *dbname, uint64_t desc_number) {
   if (rc == LDB_OK)
     rc = ldb_rename_file(tmp, cur);
 
-  if (rc != LDB_OK)
+  if (rc != LDB_OK) {
     ldb_remove_file(tmp);
+    return rc;
+  }
 
-  return rc;
+  /* Make the switch durable before the caller removes anything the
+     previous MANIFEST still needs (e.g. the logs replayed by recovery).
+     CURRENT already names the new MANIFEST at this point, so a failure
+     here must not be reported: the caller would discard that MANIFEST. */
+  ldb_sync_dir(dbname);
+
+  return LDB_OK;
 }
